@@ -252,7 +252,7 @@ Definition rdp_decide (c : rdp_cfg) (x : x224) (payload : list byte) : verdict :
     (if start + negreq_total <? plen then No else Yes)
   else
   let cstart := start + negreq_total in
-  if plen <? cstart + corr_total then No else
+  if negb (plen =? cstart + corr_total) then No else      (* the correlation info is the last element *)
   match slice payload cstart (cstart + corr_total) with None => Panic | Some cb =>
   match corr_from_bytes cb with RPanic => Panic | Err => No | Ok i =>
   match corr_ok i with RPanic => Panic | Err => Panic | Ok true => Yes | Ok false => No end
